@@ -264,7 +264,7 @@ def run(chk):
     import c09
     import c15
     import interp as I
-    px = Proxy(chk, [("C09.context", "C04.regroup-context"), ("C09.stmt", "C04.regroup-stmt"), ("C09.paren", "C04.regroup"), ("C09.adj", "C04.adjacent"), ("C09.lit", "C04.lit"), ("C09.anchor", "C04.anchor/c09"),
+    px = Proxy(chk, [("C09.context", "C04.regroup-context"), ("C09.stmt", "C04.regroup-stmt"), ("C09.decl", "C04.regroup-decl"), ("C09.paren", "C04.regroup"), ("C09.adj", "C04.adjacent"), ("C09.lit", "C04.lit"), ("C09.anchor", "C04.anchor/c09"),
                      ("C09.floor", "C04.floor/c09"), ("C09.assoc", "C04.assoc"), ("C09.lexer", "C04.lexer"), ("C09.sides", "C04.sides"),
                      ("C15.flow/hlsl", "C04.names"), ("C15.flow/msl", "C04.ignore-msl"), ("C15.floor", "C04.floor/c15")])
     try:
@@ -274,6 +274,7 @@ def run(chk):
         c09.rule_paren(px, fm, pr)
         c09.rule_contexts(px, fm, pr, lx)
         c09.rule_stmt_roundtrip(px)
+        c09.rule_decl_roundtrip(px)
         c09.rule_adj(px, fm, pr, lx)
         c09.rule_literals(px, fm)
     except (c09.Missing, I.Unknown) as e:
